@@ -43,7 +43,7 @@ func ReadLayerFile(filename string, harderror bool) (*Layerinfo, error) {
 			if len(fields) < 4 {
 				cursor.LogError("Incomplete import specification")
 			} else {
-				mount := path.Clean(fields[3])
+				mount := path.Clean("/" + fields[3])
 				source := path.Clean(fields[2])
 				fstype := fields[1]
 				layer.ConfigMounts = append(layer.ConfigMounts,
